@@ -70,6 +70,14 @@ def run(ctx):
             for t_ in (0, 10, 50, 90):
                 pool.append({"iso3": c_, "preset": f"thr_{sh_}_T{t_}",
                              "option": pools.option(shutoff=sh_, MINIMUM_PERCENT_FED_BEFORE_NONHUMAN_CONSUMPTION_ALLOWED=t_)})
+    # the world aggregate (the dispatcher is called without a country row) under threshold overrides: a fixed block too
+    wpool = []
+    for wn_, wo_ in _presets.world().items():
+        for sh_ in ("continued", "continued_after_10_percent_fed", "long_delayed_shutoff"):
+            for t_ in (10, 60):
+                wpool.append({"iso3": "WOR", "preset": f"{wn_}_thr_{sh_}_T{t_}",
+                              "option": dict(wo_, shutoff=sh_, MINIMUM_PERCENT_FED_BEFORE_NONHUMAN_CONSUMPTION_ALLOWED=t_)})
+    pool += wpool
     runs = list(pool) if not ctx.quick else rng.sample(pool, 14)
     # recorded witnesses (corpus) run first and are kept out of the random re-draws below
     import os
@@ -90,9 +98,17 @@ def run(ctx):
     # very small countries (every monthly flow is a fraction of a billion kcal) with feed demand
     sentinels += [{"iso3": "LUX", "preset": "var_shutoff=continued", "option": pools.option(shutoff="continued")},
                   {"iso3": "MLT", "preset": "sentinel_long_delayed", "option": pools.option(shutoff="long_delayed_shutoff")}]
+    # cells where the no-feed round stays below a threshold < 100 % while feed is demanded (the hand-off to the feed round is
+    # capped there), and one world cell with a custom threshold
+    bycell = {(c_["iso3"], c_["preset"]): c_ for c_ in pool}
+    for key_ in (("JPN", "var_shutoff=continued_after_10_percent_fed"), ("JPN", "thr_continued_T50"), ("EGY", "thr_continued_T90"),
+                 ("WOR", "world_no_adaptations_thr_continued_after_10_percent_fed_T60")):
+        if key_ in bycell:
+            sentinels.append(bycell[key_])
     runs = pinned + sentinels + runs
     res = ctx.run_impl("c03_impl", {"demand_cases": dcases, "runs": runs, "procs": 14})
     terms = []
+    term_run = {}
     for c, o in zip(dcases, res["demand"]):
         nt = 0 < c["feed_months"] < c["n"]
         ctx.count(("demand", json.dumps(c, sort_keys=True)), nontrivial=nt)
@@ -129,6 +145,8 @@ def run(ctx):
             dist.setdefault("rewritten_by_known_to_fail_table", []).append([r["iso3"], o["shutoff"], eff])
         terms.append(f"dispatch_ok {cstr(eff)} {cnat(n)} {cnat(r['feed_months'])} {cnat(r['biofuel_months'])} "
                      f"{fq(r['threshold'])} {overridden}")
+        term_run[terms[-1]] = {"iso3": r["iso3"], "option": o, "preset": r.get("preset"), "threshold_used": r["threshold"],
+                               "feed_months": r["feed_months"], "biofuel_months": r["biofuel_months"]}
         nontriv = len(r["rounds"]) == 3 and (sum(r["feed_demand"]) + sum(r["biofuel_demand"])) > 0
         ctx.count(("run", r["iso3"], json.dumps({k: v for k, v in o.items() if k != "title"}, sort_keys=True)), nontrivial=nontriv)
         where = {"iso3": r["iso3"], "option": o, "preset": r.get("preset")}
@@ -182,7 +200,12 @@ def run(ctx):
                 ctx.tie_ok = False
                 kind = "dispatch" if t.startswith("dispatch_ok") else "demand"
                 ctx.broken.append(f"correspondence ({kind}) differs: {t[:160]}")
-                ctx.violation(f"C03:tie:{kind}", f"model and implementation differ on {t[:200]}", {"kind": "tie-broken", "term": t[:2000]})
+                run_ = term_run.get(t)
+                what = f"model and implementation differ on {t[:200]}"
+                if run_:
+                    what = (f"{run_['iso3']} ({run_['preset']}): the run used threshold {run_['threshold_used']} and shut-off months "
+                            f"{run_['feed_months']}/{run_['biofuel_months']}, not what the option dictionary asks for; " + what)
+                ctx.violation(f"C03:tie:{kind}", what, {"kind": "counterexample" if run_ else "tie-broken", "term": t[:2000], "rerun_dispatch": run_})
                 break
 
 
